@@ -13,3 +13,24 @@ def const(src, name, pat=r"%s\s*=\s*([^;,}]+)[;,}]"):
 def cint(txt):
     t = txt.strip().rstrip("uUlL")
     return int(t, 0)
+def parse_enum_body(body):
+    """'a = 1, b, c = 0x10' -> {'a':1,'b':2,'c':16} (C enum auto increment)"""
+    out, cur = {}, -1
+    for item in body.split(","):
+        item = item.strip()
+        if not item:
+            continue
+        if "=" in item:
+            n, v = item.split("=", 1)
+            cur = int(v.strip().rstrip("uUlL"), 0)
+            out[n.strip()] = cur
+        else:
+            cur += 1
+            out[item] = cur
+    return out
+def enums_containing(src, member):
+    """body of the (first) enum { ... } that declares `member`"""
+    for m in re.finditer(r"enum(?:\s+class)?\s*\w*\s*(?::\s*[\w:]+\s*)?\{([^}]*)\}", src):
+        if re.search(r"\b%s\b" % re.escape(member), m.group(1)):
+            return parse_enum_body(m.group(1))
+    raise ValueError("no enum declares %s" % member)
